@@ -30,6 +30,7 @@ type Writer struct {
 	Lens     []uint32 `json:"lens"`     // chunk lengths, written one after the other (appending)
 	ReadBack int      `json:"readback"` // after every ReadBack-th chunk read it back through the same fid (0 = never)
 	Seed     uint64   `json:"seed"`
+	Conn     int      `json:"conn,omitempty"` // 0 = the case's own client, k = ConcSpec.Conns[k-1] (modulo)
 }
 
 // Reader describes one goroutine that owns the static file r<i>.
@@ -39,12 +40,18 @@ type Reader struct {
 	Helper string `json:"helper"` // "cread", "read", "readat", "readn"
 	Count  uint32 `json:"count"`  // buffer size per call
 	Rounds int    `json:"rounds"` // number of passes over the file
+	Conn   int    `json:"conn,omitempty"`
 }
 
 type ConcSpec struct {
-	Writers []Writer `json:"writers"`
-	Readers []Reader `json:"readers"`
-	Shared  []Shared `json:"shared,omitempty"` // files written and read through ONE fid by several goroutines, see shared.go
+	// Conns are ADDITIONAL connections to the same server, with their own
+	// msize / dialect, whose goroutines run at the same time as those of the
+	// case's own client: requests of connections with different msizes are in
+	// flight in one server together.
+	Conns   []ConnSpec `json:"conns,omitempty"`
+	Writers []Writer   `json:"writers"`
+	Readers []Reader   `json:"readers"`
+	Shared  []Shared   `json:"shared,omitempty"` // files written and read through ONE fid by several goroutines, see shared.go
 }
 
 // chunk returns the self-describing payload of chunk i of writer w: a header
@@ -111,6 +118,36 @@ func runConc(c *Case) error {
 		return fmt.Errorf("%snegotiated msize %d dotu=%v, expected %d %v", pfx, clnt.Msize, clnt.Dotu, nm, c.Dotu)
 	}
 
+	// further connections to the same server
+	cls := []concClient{{clnt: clnt, u: u, nm: nm, dotu: c.Dotu}}
+	for k, cs := range sp.Conns {
+		if cs.ClientMsize < 64 {
+			return fmt.Errorf("harness: msize below 64 is outside this check's grid")
+		}
+		xend := ufsrv.Conn(srv, fmt.Sprintf("c14c-%d", k+1))
+		defer xend.Close()
+		xc, e := go9p.Connect(xend, cs.ClientMsize, !cs.Plain)
+		if e != nil {
+			return fmt.Errorf("%sconnection %d (client msize %d): mount failed: %v", pfx, k+1, cs.ClientMsize, e)
+		}
+		defer xc.Unmount()
+		fid, e := xc.Attach(nil, go9p.OsUsers.Uid2User(0), "")
+		if e != nil {
+			return fmt.Errorf("%sconnection %d (client msize %d): attach failed: %v", pfx, k+1, cs.ClientMsize, e)
+		}
+		xc.Root = fid
+		xnm := negotiated(cs.ClientMsize, c.ServerMsize)
+		if xc.Msize != xnm || xc.Dotu != (c.Dotu && !cs.Plain) {
+			return fmt.Errorf("%sconnection %d negotiated msize %d dotu=%v, expected %d %v", pfx, k+1, xc.Msize, xc.Dotu, xnm, c.Dotu && !cs.Plain)
+		}
+		cls = append(cls, concClient{clnt: xc, u: uint64(xnm - iohdrsz), nm: xnm, dotu: xc.Dotu})
+		hx.Label(fmt.Sprintf("concurrent: further connection msize=%d", xnm))
+	}
+	if len(cls) > 1 {
+		pfx = fmt.Sprintf("%s%d connections to one server: ", pfx, len(cls))
+		hx.ExtraAdd("concurrent_multi_connection_cases", 1)
+	}
+
 	n := len(sp.Writers) + len(sp.Readers)
 	errs := make([]error, n+len(sp.Shared))
 	ops := make([]int, n+len(sp.Shared))
@@ -145,8 +182,10 @@ func runConc(c *Case) error {
 			<-start
 			w := &sp.Writers[wi]
 			name := fmt.Sprintf("w%d", wi)
+			cl := pickClient(cls, w.Conn)
+			clnt, u := cl.clnt, cl.u
 			fail := func(format string, a ...interface{}) {
-				errs[wi] = fmt.Errorf("%swriter %d (%s on %s): %s", pfx, wi, w.Helper, name, fmt.Sprintf(format, a...))
+				errs[wi] = fmt.Errorf("%swriter %d (%s on %s%s): %s", pfx, wi, w.Helper, name, cl.where(w.Conn, len(cls)), fmt.Sprintf(format, a...))
 			}
 			var file *go9p.File
 			var err error
@@ -250,8 +289,10 @@ func runConc(c *Case) error {
 			r := &sp.Readers[ri]
 			name := fmt.Sprintf("r%d", ri)
 			model := rmodels[ri]
+			cl := pickClient(cls, r.Conn)
+			clnt, u := cl.clnt, cl.u
 			fail := func(format string, a ...interface{}) {
-				errs[slot] = fmt.Errorf("%sreader %d (%s on %s, %d-byte file, %d-byte buffers): %s", pfx, ri, r.Helper, name, len(model), r.Count, fmt.Sprintf(format, a...))
+				errs[slot] = fmt.Errorf("%sreader %d (%s on %s%s, %d-byte file, %d-byte buffers): %s", pfx, ri, r.Helper, name, cl.where(r.Conn, len(cls)), len(model), r.Count, fmt.Sprintf(format, a...))
 			}
 			cnt := r.Count
 			if cnt == 0 {
@@ -335,13 +376,21 @@ func runConc(c *Case) error {
 	hx.Label(fmt.Sprintf("concurrent msize=%d", nm))
 	for _, w := range sp.Writers {
 		hx.Label("concurrent writer helper=" + w.Helper)
+		cl := pickClient(cls, w.Conn)
 		for _, ln := range w.Lens {
-			hx.NonTrivial("conc", nm, c.Dotu, w.Helper, gClass(n), cntClass(uint64(ln), u), w.Create, w.ReadBack > 0)
+			hx.NonTrivial("conc", cl.nm, cl.dotu, w.Helper, gClass(n), cntClass(uint64(ln), cl.u), w.Create, w.ReadBack > 0, len(cls) > 1)
+		}
+		if len(cls) > 1 {
+			hx.Label(fmt.Sprintf("concurrent multi-connection writer msize=%d", cl.nm))
 		}
 	}
 	for _, r := range sp.Readers {
 		hx.Label("concurrent reader helper=" + r.Helper)
-		hx.NonTrivial("conc", nm, c.Dotu, r.Helper, gClass(n), cntClass(uint64(r.Count), u), lenClass(uint64(r.Len), u))
+		cl := pickClient(cls, r.Conn)
+		hx.NonTrivial("conc", cl.nm, cl.dotu, r.Helper, gClass(n), cntClass(uint64(r.Count), cl.u), lenClass(uint64(r.Len), cl.u), len(cls) > 1)
+		if len(cls) > 1 {
+			hx.Label(fmt.Sprintf("concurrent multi-connection reader msize=%d", cl.nm))
+		}
 	}
 	for si := range sp.Shared {
 		sharedCoverage(nm, c.Dotu, u, &sp.Shared[si])
@@ -383,6 +432,28 @@ func runConc(c *Case) error {
 		}
 	}
 	return nil
+}
+
+// concClient is one of the connections of a concurrent case.
+type concClient struct {
+	clnt *go9p.Clnt
+	u    uint64
+	nm   uint32
+	dotu bool
+}
+
+func pickClient(cls []concClient, k int) concClient {
+	if k < 0 {
+		k = -k
+	}
+	return cls[k%len(cls)]
+}
+
+func (cl concClient) where(k, n int) string {
+	if n < 2 {
+		return ""
+	}
+	return fmt.Sprintf(", connection %d with msize %d", k%n, cl.nm)
 }
 
 var maxGSeen int
